@@ -62,32 +62,35 @@ class CovergroupModel(FieldCompositeModel):
             cp.finalize()
 
     def sample(self):
-        # First, sample the coverpoints
-        for cp in self.coverpoint_l:
-            cp.sample()
-            
-        for cr in self.cross_l:
-            cr.sample()
-
-        if self.type_cg is not None:
-            # Propagate cached values to the type
-            for i in range(len(self.cross_l)):
-                self.type_cg.cross_l[i].set_target_value_cache(
-                    self.cross_l[i].iff_val_cache)
+        try:
+            # First, sample the coverpoints
+            for cp in self.coverpoint_l:
+                cp.sample()
                 
-            for i in range(len(self.coverpoint_l)):
-                self.type_cg.coverpoint_l[i].set_target_value_cache(
-                    self.coverpoint_l[i].target_val_cache,
-                    self.coverpoint_l[i].iff_val_cache)
-
-            # Now, sample the type
-            self.type_cg.sample()
-
-        for cp in self.coverpoint_l:
-            cp.reset()
-            
-        for cr in self.cross_l:
-            cr.reset()
+            for cr in self.cross_l:
+                cr.sample()
+    
+            if self.type_cg is not None:
+                # Propagate cached values to the type
+                for i in range(len(self.cross_l)):
+                    self.type_cg.cross_l[i].set_target_value_cache(
+                        self.cross_l[i].iff_val_cache)
+                    
+                for i in range(len(self.coverpoint_l)):
+                    self.type_cg.coverpoint_l[i].set_target_value_cache(
+                        self.coverpoint_l[i].target_val_cache,
+                        self.coverpoint_l[i].iff_val_cache)
+    
+                # Now, sample the type
+                self.type_cg.sample()
+        finally:
+            # The cached values belong to this sample, also when a 
+            # user-provided target or iff callable raised
+            for cp in self.coverpoint_l:
+                cp.reset()
+                
+            for cr in self.cross_l:
+                cr.reset()
 
     def add_coverpoint(self, cp):
         cp.parent = self
